@@ -184,8 +184,14 @@ func ValidateCounterpartyID(id string, protocol ProtocolID) error {
 
 // isInteger returns true if the string can be converted to
 // an integer, false otherwise.
+// isInteger returns true only if s is the canonical decimal representation of an
+// unsigned 32-bit integer (no sign, no leading zeros), which is the form used by the
+// forwarding attributes to identify a destination domain.
 func isInteger(s string) bool {
-	_, err := strconv.Atoi(s)
+	if len(s) > 1 && s[0] == '0' {
+		return false
+	}
+	_, err := strconv.ParseUint(s, 10, 32)
 
 	return err == nil
 }
